@@ -2,6 +2,7 @@ import PPProofs.Lemmas.WordPaths
 import PPProofs.Lemmas.Literal
 import PPProofs.Lemmas.Ranges
 import PPProofs.Lemmas.OneOf
+import PPProofs.Lemmas.OneOfCaseless
 import PPProofs.Lemmas.CompressedRe
 /-!
 # C17 — alternative matching strategies for the same element are equivalent
@@ -214,23 +215,33 @@ theorem oneof_reorder_post (ci : Bool) (syms out : List Sym) (h : reorder ci sym
       (∀ y ∈ syms, ∃ z ∈ out, isEqual ci z y = true) :=
   reorder_post ci syms out h
 
-/-- **oneof_longest** (MatchFirst strategy, caseless or not, any symbol order): the result is a
+/-- **oneof_paths_agree**: the regex strategy (ordered alternation / character class, `re.IGNORECASE` and
+    the `symbol_map` parse action when caseless) returns exactly what the `MatchFirst` of
+    `Literal`/`CaselessLiteral` returns: same end position, same token; for every symbol list, caseless
+    flag, input and position. (Caseless = ASCII case folding in the model.) -/
+theorem oneof_paths_agree (ci : Bool) (syms : List Sym) (s : List Char) (loc : Nat) :
+    oneOf ci true syms s loc = oneOf ci false syms s loc := by
+  cases ci
+  · exact oneOf_regex_eq_matchFirst syms s loc
+  · exact oneOf_regex_eq_matchFirst_ci syms s loc
+
+/-- **oneof_longest** (either strategy, caseless or not, any symbol order): the result is a
     listed symbol that matches at `loc`, ends at `loc + len`, and no listed matching symbol is longer;
     no result iff no listed symbol matches. -/
-theorem oneof_longest (ci : Bool) (syms : List Sym) (s : List Char) (loc : Nat) :
-    match oneOf ci false syms s loc with
+theorem oneof_longest (ci useRegex : Bool) (syms : List Sym) (s : List Char) (loc : Nat) :
+    match oneOf ci useRegex syms s loc with
     | some (e, y) => y ∈ syms ∧ litMatch ci y s loc = true ∧ e = loc + y.length ∧
         ∀ z ∈ syms, litMatch ci z s loc = true → z.length ≤ y.length
-    | none => ∀ z ∈ syms, litMatch ci z s loc = false :=
-  oneOf_matchFirst_longest ci syms s loc
+    | none => ∀ z ∈ syms, litMatch ci z s loc = false := by
+  cases useRegex
+  · exact oneOf_matchFirst_longest ci syms s loc
+  · rw [oneof_paths_agree]; exact oneOf_matchFirst_longest ci syms s loc
 
-/-- **oneof_paths_agree_partial**: the regex strategy returns exactly what the MatchFirst strategy returns
-    (end position and token) — PARTIAL: proved for caseless = False; for caseless = True
-    (`re.IGNORECASE` + the `symbol_map` parse action vs `CaselessLiteral`) the agreement is only checked
-    by the correspondence/oracle legs. -/
-theorem oneof_paths_agree_partial (syms : List Sym) (s : List Char) (loc : Nat) :
-    oneOf false true syms s loc = oneOf false false syms s loc :=
-  oneOf_regex_eq_matchFirst syms s loc
+/-- what "matches at loc" means in `oneof_longest`: the slice of the text of the symbol's length equals
+    the symbol (after ASCII upper-casing both when caseless) -/
+theorem oneof_litMatch_iff (ci : Bool) (y : Sym) (s : List Char) (loc : Nat) :
+    litMatch ci y s loc = true ↔ key ci (slice s loc (loc + y.length)) = key ci y :=
+  litMatch_iff_key ci y s loc
 
 example : reorder false ["a".toList, "ab".toList, "b".toList, "abc".toList, "ab".toList] =
     some ["abc".toList, "ab".toList, "a".toList, "b".toList] := by decide
